@@ -187,3 +187,31 @@ def check_quadrature(ctx, rule, ev, it, roots, construct, where, need_initial=Tr
             signature="initial", initial=str(ini),
         )
     return ynf if ok else None
+
+
+def check_interp_options(ctx, rule, module_names, floor):
+    """Shared rule: no interp1d over table columns promises `assume_sorted=True` (row order of a
+    caller's table is not under the library's control; with the promise scipy skips its sort and
+    brackets wrongly on descending or unsorted tables)."""
+    import ast as _ast
+
+    n = 0
+    for mn in module_names:
+        m = ctx.P.module(mn)
+        for node in _ast.walk(m.tree):
+            if isinstance(node, _ast.Call) and (
+                (isinstance(node.func, _ast.Name) and node.func.id == "interp1d") or (isinstance(node.func, _ast.Attribute) and node.func.attr == "interp1d")
+            ):
+                n += 1
+                kw = {k.arg: k.value for k in node.keywords if k.arg}
+                v = kw.get("assume_sorted")
+                if v is None and len(node.args) >= 8:
+                    v = node.args[7]
+                ok = v is None or (isinstance(v, _ast.Constant) and v.value is False)
+                fn = next((f.qualname for f in ctx.P.functions.values() if f.module is m and f.node.lineno <= node.lineno <= (f.node.end_lineno or 0) and not f.nested), mn)
+                ctx.check(
+                    ok, rule, f"{fn}:interp1d#{sum(1 for _ in [0])}@{_ast.unparse(node.args[1])[:40] if len(node.args) > 1 else ''}", f"{m.relpath}:{node.lineno}",
+                    "the interpolator does not assume its abscissa is already sorted (scipy sorts; a descending or unsorted table is handled)",
+                    signature="assume_sorted", nontrivial=False,
+                )
+    ctx.floor(rule, n, floor, "interp1d call sites")
